@@ -379,6 +379,8 @@ func run(c *core.Ctx) {
 		{"2-heads depth2 width3", two, 2, 3},
 		// a package path that is spelled like the import name another package gets, in every nesting order
 		{"name-like-path-heads depth2 width2", []head{{"", "T"}, {"a", "T"}, {"x.io/q/a", "T"}}, 2, 2},
+		// path elements that merely END in "vendor" (no vendor directory anywhere)
+		{"vendor-like-heads depth2 width2", []head{{"", "T"}, {"x.io/govendor/ctx", "T"}, {"multivendor/catalog", "T"}}, 2, 2},
 	}
 	if c.Thorough() {
 		spaces = append(spaces,
